@@ -8,6 +8,7 @@ package main
 
 import (
 	"go/constant"
+	"strconv"
 	"go/token"
 	"go/types"
 	"sort"
@@ -25,7 +26,58 @@ type kenv struct {
 	intOf   map[ssa.Value]int64  // int parameter -> value
 	strOf   map[ssa.Value]string // string parameter -> value
 	mapKeys map[string]bool      // keys of the string->string table consulted with comma-ok (TypeMap)
+	kindNum map[string]int64     // lower-case kind name -> reflect.Kind value (filled by explore)
+	curF    map[string]constant.Value // constants held by fields of local struct variables on the path
+	curS    map[*ssa.Alloc]ssa.Value  // a non-constant condition a bool variable holds on the path (`zero := b.Int() == 0`)
+	curV    map[*ssa.Alloc]ssa.Value  // which value a reflect.Value variable holds on the path (`value = value.Elem()` under a test)
+	visited map[*ssa.BasicBlock]bool  // blocks reached by the last explore
+	callInt func(call *ssa.Call) (int64, bool) // value of a call of another function of the table (getNumType), per explored kind
+	// condMark, when set, is asked at every branch with the condition actually tested (a
+	// condition kept in a bool variable is replaced by the value stored on this path)
+	condMark func(cond ssa.Value, succ int) bool
 }
+
+// fieldKey names a field of a local struct variable.
+func (e *kenv) fieldKey(al *ssa.Alloc, field int) string {
+	return e.x.allocName(al) + "#" + itoa(field)
+}
+
+func itoa(i int) string { return strconv.Itoa(i) }
+
+// structConst: the field constants of a struct value read from a local variable whose
+// fields are all known on the current path (`p := classPair{ca, cb}`), or copied from one.
+func (e *kenv) structConst(v ssa.Value, d int) ([]constant.Value, bool) {
+	if d > 6 {
+		return nil, false
+	}
+	u, ok := v.(*ssa.UnOp)
+	if !ok || u.Op != token.MUL {
+		return nil, false
+	}
+	al, ok := u.X.(*ssa.Alloc)
+	if !ok {
+		return nil, false
+	}
+	st, ok := al.Type().Underlying().(*types.Pointer).Elem().Underlying().(*types.Struct)
+	if !ok {
+		return nil, false
+	}
+	var out []constant.Value
+	all := true
+	for i := 0; i < st.NumFields(); i++ {
+		c, ok := e.curF[e.fieldKey(al, i)]
+		if !ok {
+			all = false
+			break
+		}
+		out = append(out, c)
+	}
+	if all && st.NumFields() > 0 {
+		return out, true
+	}
+	return nil, false
+}
+
 
 // pathConst: the constant a variable read holds on the current path.
 func (e *kenv) pathConst(v ssa.Value) (constant.Value, bool) {
@@ -33,6 +85,12 @@ func (e *kenv) pathConst(v ssa.Value) (constant.Value, bool) {
 		u, ok := v.(*ssa.UnOp)
 		if !ok || u.Op != token.MUL {
 			return nil, false
+		}
+		if fa, isFA := u.X.(*ssa.FieldAddr); isFA {
+			if sal, isAl := fa.X.(*ssa.Alloc); isAl {
+				c, ok := e.curF[e.fieldKey(sal, fa.Field)]
+				return c, ok
+			}
 		}
 		al, ok := e.x.ResolveAddr(u.X).(*ssa.Alloc)
 		if !ok {
@@ -69,11 +127,26 @@ func (e *kenv) evalString(v ssa.Value) (string, bool) {
 	switch t := v.(type) {
 	case *ssa.Call:
 		cal := t.Call.StaticCallee()
+		if t.Call.IsInvoke() && t.Call.Method.Name() == "String" {
+			// typ.String() through the reflect.Type interface
+			if tc, ok := e.x.Origin(t.Call.Value).(*ssa.Call); ok && tc.Call.StaticCallee() != nil && tc.Call.StaticCallee().Name() == "Type" && len(tc.Call.Args) == 1 {
+				if r := e.rootValue(tc.Call.Args[0]); r != nil {
+					k, ok := e.kindOf[r]
+					return k, ok
+				}
+			}
+		}
 		if cal != nil && cal.Name() == "String" && len(t.Call.Args) == 1 {
 			// (reflect.Kind).String() of (reflect.Value).Kind() of a parameter
 			if kc, ok := e.x.Origin(t.Call.Args[0]).(*ssa.Call); ok && kc.Call.StaticCallee() != nil && kc.Call.StaticCallee().Name() == "Kind" && len(kc.Call.Args) == 1 {
-				k, ok := e.kindOf[e.x.Origin(kc.Call.Args[0])]
-				return k, ok
+				return e.evalKindName(kc)
+			}
+			// (reflect.Type).String() of (reflect.Value).Type(): for the unnamed types explored, the kind's name
+			if tc, ok := e.x.Origin(t.Call.Args[0]).(*ssa.Call); ok && tc.Call.StaticCallee() != nil && tc.Call.StaticCallee().Name() == "Type" && len(tc.Call.Args) == 1 {
+				if r := e.rootValue(tc.Call.Args[0]); r != nil {
+					k, ok := e.kindOf[r]
+					return k, ok
+				}
 			}
 		}
 	case *ssa.Extract:
@@ -104,16 +177,73 @@ func (e *kenv) evalInt(v ssa.Value) (int64, bool) {
 		k, ok := e.intOf[p]
 		return k, ok
 	}
+	switch t := v.(type) {
+	case *ssa.Convert:
+		return e.evalInt(t.X)
+	case *ssa.ChangeType:
+		return e.evalInt(t.X)
+	case *ssa.Call:
+		if e.callInt != nil {
+			if k, ok := e.callInt(t); ok {
+				return k, true
+			}
+		}
+		// (reflect.Value).Kind() of a parameter: the kind explored, as a number
+		if kn, ok := e.evalKindName(t); ok {
+			if k, ok := e.kindNum[kn]; ok {
+				return k, true
+			}
+		}
+	}
 	return 0, false
 }
 
 // evalKind: (reflect.Value).Kind() of a parameter compared with a reflect.Kind constant
 func (e *kenv) evalKindName(v ssa.Value) (string, bool) {
 	if kc, ok := e.x.Origin(v).(*ssa.Call); ok && kc.Call.StaticCallee() != nil && kc.Call.StaticCallee().Name() == "Kind" && len(kc.Call.Args) == 1 {
-		k, ok := e.kindOf[e.x.Origin(kc.Call.Args[0])]
-		return k, ok
+		recv := kc.Call.Args[0]
+		// Kind() of the Type() of a value is the kind of the value
+		if tc, isT := e.x.Origin(recv).(*ssa.Call); isT && tc.Call.StaticCallee() != nil && tc.Call.StaticCallee().Name() == "Type" && len(tc.Call.Args) == 1 && recvName(tc.Call.StaticCallee()) == "Value" {
+			recv = tc.Call.Args[0]
+		}
+		if k, ok := e.kindOf[e.x.Origin(recv)]; ok {
+			return k, true
+		}
+		if r := e.rootValue(recv); r != nil {
+			k, ok := e.kindOf[r]
+			return k, ok
+		}
 	}
 	return "", false
+}
+
+// rootValue: the parameter (or seeded value) a reflect.Value expression denotes on the
+// current path: through the variable it was put into, or as an element of a slice parameter.
+func (e *kenv) rootValue(v ssa.Value) ssa.Value {
+	for i := 0; i < 8; i++ {
+		o := e.x.Origin(v)
+		if _, ok := e.kindOf[o]; ok {
+			return o
+		}
+		u, ok := o.(*ssa.UnOp)
+		if !ok || u.Op != token.MUL {
+			return nil
+		}
+		if al, isAl := u.X.(*ssa.Alloc); isAl {
+			w, has := e.curV[al]
+			if !has {
+				return nil
+			}
+			v = w
+			continue
+		}
+		if ia, isIA := u.X.(*ssa.IndexAddr); isIA {
+			v = ia.X
+			continue
+		}
+		return nil
+	}
+	return nil
 }
 
 func (e *kenv) evalBool(v ssa.Value, kindConst map[int64]string) (bool, bool) {
@@ -134,7 +264,36 @@ func (e *kenv) evalBool(v ssa.Value, kindConst map[int64]string) (bool, bool) {
 			return !b, ok
 		}
 	case *ssa.BinOp:
+		switch t.Op {
+		case token.LSS, token.LEQ, token.GTR, token.GEQ:
+			if a, ok1 := e.evalInt(t.X); ok1 {
+				if b, ok2 := e.evalInt(t.Y); ok2 {
+					switch t.Op {
+					case token.LSS:
+						return a < b, true
+					case token.LEQ:
+						return a <= b, true
+					case token.GTR:
+						return a > b, true
+					default:
+						return a >= b, true
+					}
+				}
+			}
+		case token.LAND, token.LOR:
+		}
 		if t.Op == token.EQL || t.Op == token.NEQ {
+			if a, ok1 := e.structConst(t.X, 0); ok1 {
+				if b, ok2 := e.structConst(t.Y, 0); ok2 && len(a) == len(b) {
+					same := true
+					for i := range a {
+						if !constant.Compare(a[i], token.EQL, b[i]) {
+							same = false
+						}
+					}
+					return same == (t.Op == token.EQL), true
+				}
+			}
 			if a, ok1 := e.evalString(t.X); ok1 {
 				if b, ok2 := e.evalString(t.Y); ok2 {
 					return (a == b) == (t.Op == token.EQL), true
@@ -184,11 +343,28 @@ func (e *kenv) explore(fn *ssa.Function, kindConst map[int64]string, markEdge fu
 		m   bool
 		env string
 	}
+	e.kindNum = map[string]int64{}
+	for k, n := range kindConst {
+		e.kindNum[strings.ToLower(n)] = k
+	}
 	envs := map[string]map[*ssa.Alloc]constant.Value{"": {}}
-	keyOf := func(env map[*ssa.Alloc]constant.Value) string {
+	envsF := map[string]map[string]constant.Value{"": {}}
+	envsS := map[string]map[*ssa.Alloc]ssa.Value{"": {}}
+	envsV := map[string]map[*ssa.Alloc]ssa.Value{"": {}}
+	e.visited = map[*ssa.BasicBlock]bool{}
+	keyOf := func(env map[*ssa.Alloc]constant.Value, envF map[string]constant.Value, envS, envV map[*ssa.Alloc]ssa.Value) string {
 		var parts []string
 		for a, c := range env {
 			parts = append(parts, e.x.allocName(a)+"="+c.ExactString())
+		}
+		for a, c := range envF {
+			parts = append(parts, a+"="+c.ExactString())
+		}
+		for a, v := range envS {
+			parts = append(parts, e.x.allocName(a)+"~"+v.Name())
+		}
+		for a, v := range envV {
+			parts = append(parts, e.x.allocName(a)+"@"+v.Name())
 		}
 		sort.Strings(parts)
 		k := strings.Join(parts, ";")
@@ -198,8 +374,43 @@ func (e *kenv) explore(fn *ssa.Function, kindConst map[int64]string, markEdge fu
 				cp[a] = c
 			}
 			envs[k] = cp
+			cpF := map[string]constant.Value{}
+			for a, c := range envF {
+				cpF[a] = c
+			}
+			envsF[k] = cpF
+			cpS := map[*ssa.Alloc]ssa.Value{}
+			for a, v := range envS {
+				cpS[a] = v
+			}
+			envsS[k] = cpS
+			cpV := map[*ssa.Alloc]ssa.Value{}
+			for a, v := range envV {
+				cpV[a] = v
+			}
+			envsV[k] = cpV
 		}
 		return k
+	}
+	evalConst := func(v ssa.Value) (constant.Value, bool) {
+		switch bt := v.Type().Underlying().(type) {
+		case *types.Basic:
+			switch {
+			case bt.Info()&types.IsString != 0:
+				if c, ok := e.evalString(v); ok {
+					return constant.MakeString(c), true
+				}
+			case bt.Info()&types.IsInteger != 0:
+				if c, ok := e.evalInt(v); ok {
+					return constant.MakeInt64(c), true
+				}
+			case bt.Info()&types.IsBoolean != 0:
+				if c, ok := e.evalBool(v, kindConst); ok {
+					return constant.MakeBool(c), true
+				}
+			}
+		}
+		return nil, false
 	}
 	seen := map[st]bool{}
 	seenRet := map[kreach]bool{}
@@ -220,14 +431,63 @@ func (e *kenv) explore(fn *ssa.Function, kindConst map[int64]string, markEdge fu
 		for a, c := range envs[s.env] {
 			env[a] = c
 		}
+		envF := map[string]constant.Value{}
+		for a, c := range envsF[s.env] {
+			envF[a] = c
+		}
+		envS := map[*ssa.Alloc]ssa.Value{}
+		for a, v := range envsS[s.env] {
+			envS[a] = v
+		}
+		envV := map[*ssa.Alloc]ssa.Value{}
+		for a, v := range envsV[s.env] {
+			envV[a] = v
+		}
 		e.cur = env
+		e.curF = envF
+		e.curS = envS
+		e.curV = envV
+		e.visited[s.b] = true
 		for _, in := range s.b.Instrs {
 			stI, ok := in.(*ssa.Store)
 			if !ok {
 				continue
 			}
+			// a field of a local struct variable (`p := classPair{ca, cb}`)
+			if fa, isFA := stI.Addr.(*ssa.FieldAddr); isFA {
+				if sal, isAl := fa.X.(*ssa.Alloc); isAl {
+					fk := e.fieldKey(sal, fa.Field)
+					if c, ok := evalConst(stI.Val); ok {
+						envF[fk] = c
+					} else {
+						delete(envF, fk)
+					}
+				}
+				continue
+			}
 			al, ok := stI.Addr.(*ssa.Alloc)
-			if !ok || al.Heap {
+			if !ok {
+				continue
+			}
+			// a struct value copied as a whole
+			if stt, isStruct := al.Type().Underlying().(*types.Pointer).Elem().Underlying().(*types.Struct); isStruct {
+				cs, known := e.structConst(stI.Val, 0)
+				for i := 0; i < stt.NumFields(); i++ {
+					if known && i < len(cs) {
+						envF[e.fieldKey(al, i)] = cs[i]
+					} else {
+						delete(envF, e.fieldKey(al, i))
+					}
+				}
+				// which value the variable holds now (a reflect.Value parameter put into a local)
+				if r := e.rootValue(stI.Val); r != nil {
+					envV[al] = r
+				} else {
+					delete(envV, al)
+				}
+				continue
+			}
+			if al.Heap {
 				continue
 			}
 			switch bt := al.Type().Underlying().(*types.Pointer).Elem().Underlying().(type) {
@@ -246,13 +506,19 @@ func (e *kenv) explore(fn *ssa.Function, kindConst map[int64]string, markEdge fu
 				case bt.Info()&types.IsBoolean != 0:
 					if v, ok := e.evalBool(stI.Val, kindConst); ok {
 						env[al] = constant.MakeBool(v)
+						delete(envS, al)
 						continue
 					}
+					// not a constant: remember which condition the variable holds
+					delete(env, al)
+					envS[al] = e.x.Origin(stI.Val)
+					continue
 				}
 			}
 			delete(env, al)
+			delete(envS, al)
 		}
-		ek := keyOf(env)
+		ek := keyOf(env, envF, envS, envV)
 		last := s.b.Instrs[len(s.b.Instrs)-1]
 		switch t := last.(type) {
 		case *ssa.Return:
@@ -263,12 +529,23 @@ func (e *kenv) explore(fn *ssa.Function, kindConst map[int64]string, markEdge fu
 			}
 		case *ssa.If:
 			val, known := e.evalBool(t.Cond, kindConst)
+			tested := ssa.Value(t.Cond)
+			if u, isLd := t.Cond.(*ssa.UnOp); isLd && u.Op == token.MUL {
+				if al, isAl := u.X.(*ssa.Alloc); isAl {
+					if v, has := envS[al]; has {
+						tested = v
+					}
+				}
+			}
 			for i, n := range s.b.Succs {
 				if known && ((i == 0) != val) {
 					continue
 				}
 				m := s.m
 				if markEdge != nil && markEdge(s.b, i) {
+					m = true
+				}
+				if e.condMark != nil && e.condMark(tested, i) {
 					m = true
 				}
 				push(st{n, m, ek})
@@ -284,5 +561,8 @@ func (e *kenv) explore(fn *ssa.Function, kindConst map[int64]string, markEdge fu
 		}
 	}
 	e.cur = nil
+	e.curF = nil
+	e.curS = nil
+	e.curV = nil
 	return out
 }
